@@ -26,7 +26,7 @@ PID = "C13"
 TITLE = "Static context seen by an element depends only on what encloses and precedes it"
 LEAN_MODULES = ["LenaModel.Props.C13"]
 LEAN_SOURCES = ["LenaModel/Model/Val.lean", "LenaModel/Model/C13.lean", "LenaModel/Lemmas/C13Dict.lean",
-                "LenaModel/Lemmas/C13Pass.lean", "LenaModel/Props/C13.lean"]
+                "LenaModel/Lemmas/C13Pass.lean", "LenaModel/Lemmas/C13WF.lean", "LenaModel/Props/C13.lean"]
 DRIVER = "drivers/C13.lean"
 THEOREMS = [
     "Lena.C13.build_eq_final",
@@ -50,6 +50,11 @@ THEOREMS = [
     "Lena.C13.fold_mono",
     "Lena.C13.setCtx_final",
     "Lena.C13.loop_final",
+    "Lena.C13.kind_irrelevant",
+    "Lena.C13.delivered_wf",
+    "Lena.C13.exported_wf",
+    "Lena.C13.ctxAt_child",
+    "Lena.C13.foldL_leaves",
 ]
 CASE_TIMEOUT = 20
 TRUSTED = [
@@ -76,7 +81,7 @@ ASSUMPTIONS = [
 ]
 RULE = ("quick: all trees with <= 2 leaves over 9 leaf kinds (SetContext constant / formatting / nested key, StoreContext, "
         "UpdateContextFromStatic, MakeFilename, Write, Cache, plain element), depth <= 2, Sequence and Source tops; a seeded "
-        "sample of 9000 of the trees with 3 leaves over 7 leaf kinds; 4000 seeded random trees of depth <= 3 (Sequence / "
+        "sample of 6000 trees with 3 leaves over 7 leaf kinds; 4000 seeded random trees of depth <= 3 (Sequence / "
         "Source / tuple branches, 0-3 Split branches, 6 keys, 7 formatting fields incl. unresolvable ones) each with two "
         "causality variants (everything after a probe / sibling branches replaced) and a run-time flow out of 5.  thorough: "
         "all trees with <= 3 leaves over the 9 leaf kinds, all trees with 4 leaves over 4 core leaf kinds, 100 000 random "
@@ -683,17 +688,47 @@ def compare(case, res, replies):
             if a != b:
                 return f"node #{i}: impl {a} vs model (build/setCtx/getCtx) {b}"
         return f"impl has {len(got)} nodes, model {len(m['nodes'])}"
-    # the model's specification fold against the harness's independent reference fold
-    ref = Ref(case["tree"])
+    # the model's specification (fold, ctxAt, leafFinal, cone, runRef, runPlain) against the harness's
+    # independent Python reference, and against the model's own protocol (what the theorems state)
+    tree = case["tree"]
+    ref = Ref(tree)
     want = ref.top[1] if ref.top[0] == "ok" else {"e": ref.top[1]}
     if m["fold"] != want:
         return f"model fold {m['fold']} vs reference prefix fold {want}"
+    nodes = preorder(tree)
+    for i, (node, sp) in enumerate(zip(nodes, m["spec"])):
+        exp = ref.exp.get(i)
+        if (exp is None) != (sp is None):
+            return f"node #{i}: model spec (ctxAt) {sp} vs reference fold {exp}: one of them is undefined"
+        if sp is None:
+            continue
+        if _strip(node, exp) != sp:
+            return f"node #{i}: model spec (ctxAt/leafFinal/fold) {sp} vs reference fold {_strip(node, exp)}"
+        if sp != m["nodes"][i]:
+            return f"node #{i}: model spec {sp} vs model protocol {m['nodes'][i]} (seen_is_prefix_fold)"
+    for pth, cn in zip(paths(tree), m["cones"]):
+        py = [[st[0], len(st[1])] if st[0] == "seq" else ["split"] for st in cone(tree, pth)[0]]
+        if py != cn:
+            return f"path {pth}: model cone {cn} vs harness cone {py}"
     if res.get("out") is not None:
         o = res["out"]
+        mo = m.get("out") or {}
         if "e" in o:
-            return f"run: impl raised {o}, model (run) {m.get('out')}"
-        if m.get("out") != {"r": [list(x) for x in o["r"]]}:
-            return f"run: impl {o['r']} vs model (run) {m.get('out')}"
+            return f"run: impl raised {o}, model (run) {mo}"
+        got_r = [list(x) for x in o["r"]]
+        if mo.get("r") != got_r:
+            return f"run: impl {got_r} vs model (run) {mo}"
+        if ref.top[0] == "ok":
+            flow = [(i, copy.deepcopy(c)) for i, c in enumerate(case.get("flow") or [])]
+            exp_out = [[d, c] for d, c in ref_run(tree, ref.exp, 0, flow)[0]]
+            if mo.get("ref") != exp_out:
+                return f"run: model runRef {mo.get('ref')} vs reference run {exp_out}"
+            if mo.get("ref") != mo.get("r"):
+                return f"run: model runRef {mo.get('ref')} vs model run {mo.get('r')} (no_leak)"
+        if mo.get("no_consumer") != (not any(nd["k"] in ("ucfs", "mkf") for nd in nodes)):
+            return f"model noConsumer {mo.get('no_consumer')} is wrong"
+        if mo.get("no_consumer") and mo.get("plain") != mo.get("r"):
+            return f"run: model runPlain {mo.get('plain')} vs model run {mo.get('r')} (no_leak_without_consumer)"
     return None
 
 
@@ -949,17 +984,42 @@ def exhaustive_cases(nmax, depth, leaves, source=False):
 EX_LEAVES_CORE = [EX_LEAVES[0], EX_LEAVES[1], EX_LEAVES[3], EX_LEAVES[4]]   # set a, set b={{a}}_f, store, ucfs
 
 
+def _fill(shape, it):
+    """the tree `shape` (leaves are None) with its leaves taken from the iterator `it`, in document order"""
+    if shape is None:
+        return next(it)
+    return dict(shape, c=[_fill(c, it) for c in shape["c"]])
+
+
+def sampled_cases(rng, n, depth, leaves, count):
+    """`count` seeded draws from the scope of exhaustive_cases(n, depth, leaves, source=True) with exactly n leaves"""
+    shapes = list(_forests(n, depth, [None]))
+    out = []
+    while len(out) < count:
+        shape = rng.choice(shapes)
+        it = iter([rng.choice(leaves) for _ in range(n)])
+        cs = [_fill(t, it) for t in shape]
+        if rng.random() < 0.5:
+            t = {"k": "seq", "kind": "Sequence", "c": cs}
+            flow = FLOWS[1]
+        else:
+            t = {"k": "seq", "kind": "Source", "c": [{"k": "src"}] + cs}
+            flow = []
+        if not _renders_dict(t):
+            out.append({"tree": t, "flow": _flow_for(t, flow)})
+    return out
+
+
 def gen_cases(ctx):
-    """quick: every tree with <= 2 leaves over the 9-leaf alphabet and a seeded sample of the trees with 3 leaves over
-    the 7-leaf alphabet (depth <= 2, Sequence and Source tops), 4000 random trees of depth <= 3 with causality
+    """quick: every tree with <= 2 leaves over the 9-leaf alphabet and 6000 seeded draws from the trees with 3 leaves
+    over the 7-leaf alphabet (depth <= 2, Sequence and Source tops), 4000 random trees of depth <= 3 with causality
     variants.  thorough: all trees with <= 3 leaves over the 9-leaf alphabet, all trees with 4 leaves over the 4 core
     leaves, 100 000 random trees."""
     rng = ctx.rng
     cases = []
     if ctx.tier == "quick":
         cases.extend(exhaustive_cases(2, 2, EX_LEAVES + EX_LEAVES_MORE, source=True))
-        three = [c for c in exhaustive_cases(3, 2, EX_LEAVES, source=True)]
-        cases.extend(rng.sample(three, min(len(three), 9000)))
+        cases.extend(sampled_cases(rng, 3, 2, EX_LEAVES, 6000))
         n_rand = 4000
     else:
         cases.extend(exhaustive_cases(3, 2, EX_LEAVES + EX_LEAVES_MORE, source=True))
